@@ -145,6 +145,20 @@ CLAIMS = {
         "an abort-surviving worker and an operation budget (hang detector), outcome and full transport trace compared with the model."),
   note=TB + "entry families under a theorem are listed in the evidence (entry_families_under_theorem); families not yet modelled are not claimed here. Third-party decoders are parameters.",
   technique="Lean 4 proof (Safe/QSafe program logics, fuel-sufficiency by a queue-length measure) + hostile-input differential"),
+ "C13": dict(
+  category="proof",
+  text=("Lean 4 theorems. Requests sent: for EVERY server behaviour the model of the Valve query sends at most 3·(retries+1) datagrams plus one per datagram "
+        "received (C13_valve_send_bound; per request r+1 plus received) and the Unreal 2 query at most 3·(retries+1) whatever it receives (C13_unreal2_send_bound) — "
+        "a counting logic over the transport log (Cost). Memory: the list of ALL allocation-size expressions of the library is regenerated from the source on every "
+        "run by the translator (expression, defining lets/parameters, guards and constants hashed into a site id); C13_every_site_classified proves every generated "
+        "site is in the hand-written classification (constant / fixed-width wire field / clamped / proportional to the bytes of the datagram it came from / drained "
+        "behind a take-limit / caller-supplied constant / unreachable from a query), and C13_single_request_proportional / _datagram prove that a site of any class "
+        "asks for at most 10 MiB + 64 bytes per byte received, below 16 MiB for any datagram. MEASURED on the implementation (the search for a failing input, and "
+        "the part a model cannot carry): a counting global allocator in the harness records peak live bytes and the largest single request of every query on "
+        "SPEC-generated exchanges and mutations biased to extreme length / count / index fields and oversized datagrams, checked against 64 MiB / 16 MiB; the number "
+        "of requests in the real trace is checked against units·(r+1) + received for every family."),
+  note=TB + "element sizes in the classification are estimates of the Rust layouts and collection growth policies (measured, not modelled); the translator finds allocation sites syntactically (with_capacity, vec![x; n], reserve, resize, read_to_end, take, repeat) — growth by push/insert is proportional to parsed input by construction and is covered by the measurement only; send-bound theorems exist for Valve and Unreal 2, the other families are covered by the trace oracle.",
+  technique="Lean 4 proof (send-count logic over the log; classification theorem over the generated allocation-site table) + counting-allocator measurement on the real code"),
  "C09": dict(
   category="proof",
   text=("Lean 4 theorems: the A2S request bytes equal the specification's literals; for every script, every event the Valve query logs is on "
